@@ -132,7 +132,17 @@ class C18(CheckBase):
             variants.append(v)
         base_ui = rng.choice([None, None] + UIS)
         base_verbose = rng.chance(0.15)
-        return {'image': image, 'ops': ops, 'cmd': cmd, 'variants': variants, 'base_ui': base_ui, 'base_verbose': base_verbose,
+        base_globals = []
+        if image.get('surfaces') and rng.chance(0.4):
+            s0 = dfswork.surface_of({'surface': image['surfaces'][0]})
+            v = rng.choice(s0.volumes)
+            base_globals += ['--drive', '0' + (v.label or '')]
+            if rng.chance(0.4):
+                dirs = sorted(set(chr(f.dir) for f in v.files if 0x21 <= f.dir < 0x7F)) or ['$']
+                base_globals += ['--dir', rng.choice(dirs)]
+            if cmd and cmd[0] in ('cat', 'free', 'space', 'info', 'sector-map'):
+                cmd = cmd[:1] if cmd[0] != 'info' else ['info', '*.*']
+        return {'image': image, 'ops': ops, 'cmd': cmd, 'variants': variants, 'base_ui': base_ui, 'base_verbose': base_verbose, 'base_globals': base_globals,
                 'gz': rng.chance(0.1)}
 
     def run_case(self, case, ctx):
@@ -150,7 +160,8 @@ class C18(CheckBase):
             return ctx.sk.run(sb, exe, argv, **kw), argv
 
         bpre = ['--verbose'] if case['base_verbose'] else []
-        bpost = ['--ui', case['base_ui']] if case['base_ui'] else []
+        bg = case.get('base_globals') or []
+        bpost = bg + (['--ui', case['base_ui']] if case['base_ui'] else [])
         base, bargv = run(bpre, bpost)
         out.add_run(base, ref=True)
         if base.code is None:
@@ -177,13 +188,13 @@ class C18(CheckBase):
                     out.violate('C18.a', '%s vs %s: %s -> %s, stdout %s' % (' '.join(bargv[1:]), ' '.join(argv[1:]), base.exit_class(), r.exit_class(),
                                                                            'identical' if r['stdout'] == base['stdout'] else 'differs'), desc, self.atom(case, v))
             elif k in ('ui', 'columns'):
-                pre, post = list(bpre), []
+                pre, post = list(bpre), list(bg)
                 ui = v.get('ui')
                 if ui:
                     if v.get('pos') == 'pre':
                         pre = pre + ['--ui', ui]
                     else:
-                        post = ['--ui', ui]
+                        post = post + ['--ui', ui]
                 elif case['base_ui']:
                     post = list(bpost)
                 env = []
@@ -243,6 +254,8 @@ class C18(CheckBase):
             yield dict(case, base_ui=None)
         if case['base_verbose']:
             yield dict(case, base_verbose=False)
+        if case.get('base_globals'):
+            yield dict(case, base_globals=case['base_globals'][:2] if len(case['base_globals']) > 2 else [])
         if case['gz']:
             yield dict(case, gz=False)
         image = case['image']
